@@ -111,8 +111,14 @@ class Lane(LaneBase):
         g, rejected = tsgen.build(case)
         tok, idx = tsgen.graph_args(g)
         lines = [f'ts stationary {tok} {idx}', f'ts isstationary {tok} {idx}']
-        s, r1 = tsgen.reply_graph(g.get_stationary_graph)
-        iss, r2 = tsgen.reply_bool(g.is_stationary_graph)
+        import zlib
+        if zlib.crc32(tok.encode()) % 2:
+            # either order of the two calls must give the same answers (the test caches, the builder must not care)
+            iss, r2 = tsgen.reply_bool(g.is_stationary_graph)
+            s, r1 = tsgen.reply_graph(g.get_stationary_graph)
+        else:
+            s, r1 = tsgen.reply_graph(g.get_stationary_graph)
+            iss, r2 = tsgen.reply_bool(g.is_stationary_graph)
         out = [r1, r2]
         s_iss = None
         if s is not None:
